@@ -96,6 +96,24 @@ fn load_known(property: &str) -> Vec<Value> {
     v.as_array().cloned().unwrap_or_default().into_iter().filter(|e| e["property"] == property).collect()
 }
 
+thread_local! {
+    /// set while the explorer re-executes a transition for its determinism self-check: nothing the re-execution
+    /// observes may be counted twice (known-finding match counts are compared with recorded numbers)
+    static QUIET: std::cell::Cell<bool> = const { std::cell::Cell::new(false) };
+}
+
+/// Run `f` with every `Report` on this thread muted (violations, outcomes and samples are dropped).
+pub fn quietly<T>(f: impl FnOnce() -> T) -> T {
+    QUIET.with(|q| q.set(true));
+    let r = f();
+    QUIET.with(|q| q.set(false));
+    r
+}
+
+fn quiet() -> bool {
+    QUIET.with(|q| q.get())
+}
+
 impl Report {
     pub fn new(property: &str, args: &Args) -> Self {
         Report {
@@ -115,14 +133,23 @@ impl Report {
     }
 
     pub fn outcome(&self, class: &str) {
+        if quiet() {
+            return;
+        }
         *self.inner.lock().unwrap().outcomes.entry(class.to_string()).or_default() += 1;
     }
     pub fn outcome_n(&self, class: &str, n: u64) {
+        if quiet() {
+            return;
+        }
         *self.inner.lock().unwrap().outcomes.entry(class.to_string()).or_default() += n;
     }
 
     /// keep up to `cap` samples; `pick` decides deterministically from the seed which ones
     pub fn sample(&self, v: Value, cap: usize) {
+        if quiet() {
+            return;
+        }
         let mut g = self.inner.lock().unwrap();
         if g.samples.len() < cap {
             g.samples.push(v);
@@ -131,6 +158,9 @@ impl Report {
 
     /// Record a violation. Returns true if it matched a known finding.
     pub fn violation(&self, f: Finding) {
+        if quiet() {
+            return;
+        }
         let _ = self.violation_inner(f);
     }
 
